@@ -1366,7 +1366,7 @@ def filter_to_namespace_qualifier(namespace_list: typing.List[str]) -> str:
     return "::".join(namespace_list) + "::"
 
 
-def filter_to_template_unique_name(base_token: str) -> str:
+def filter_to_template_unique_name(_: typing.Any, base_token: str) -> str:
     """
     Filter that takes a base token and forms a name that is very
     likely to be unique within the template the filter is invoked. This
@@ -1868,3 +1868,10 @@ def filter_block_comment(language: Language, text: str, style: str, indent: int 
         indent=indent,
         line_length=line_length,
     )
+
+
+# A template-unique name must be computed while the template is rendered. Jinja folds a filter applied to a constant
+# into a constant when it compiles the template unless the filter is marked as depending on the context.
+from nunavut._templates import template_volatile_filter as _template_volatile_filter  # noqa: E402 pylint: disable=C0413
+
+_template_volatile_filter(filter_to_template_unique_name)
